@@ -524,6 +524,16 @@ namespace awkward {
             std::string("key ") + quote(key)
             + std::string(" does not exist (not in record)") + FILENAME(__LINE__));
         }
+        catch (std::out_of_range err) {
+          throw std::invalid_argument(
+            std::string("key ") + quote(key)
+            + std::string(" does not exist (not in record)") + FILENAME(__LINE__));
+        }
+        if (std::to_string(out) != key) {
+          throw std::invalid_argument(
+            std::string("key ") + quote(key)
+            + std::string(" does not exist (not in record)") + FILENAME(__LINE__));
+        }
         if (!(0 <= out && out < numfields)) {
           throw std::invalid_argument(
             std::string("key interpreted as fieldindex ") + key
